@@ -54,10 +54,12 @@ Definition CDATA_SPLIT : list N := B "]]]]><![CDATA[>".
 Fixpoint cdata_escape (s : list N) : list N :=
   match s with
   | [] => []
-  | a :: s' =>
-      match a, s' with
-      | 93, 93 :: 62 :: r => CDATA_SPLIT ++ cdata_escape r
-      | _, _ => a :: cdata_escape s'
+  | b1 :: r1 =>
+      match r1 with
+      | b2 :: b3 :: r3 =>
+          if (b1 =? 93) && (b2 =? 93) && (b3 =? 62) then CDATA_SPLIT ++ cdata_escape r3
+          else b1 :: cdata_escape r1
+      | _ => b1 :: cdata_escape r1
       end
   end.
 
@@ -91,11 +93,15 @@ Definition structure (tag : list N) (body : list N) : list N :=
   open_tag tag TYPE_STRUCTURE ++ LF ++ body ++ close_tag tag ++ LF.
 
 (** * src/date_time.rs *)
+
+(** [if self.atomic_reference { "1" } else { "0" }] in an Integer element *)
+Definition gen_flag (tag : list N) (b : bool) : list N :=
+  open_tag tag TYPE_INTEGER ++ (if b then B "1" else B "0") ++ close_tag tag ++ LF.
+
 Definition date_time_xml (tag : list N) (dt : date_time) : list N :=
   structure tag
-    (open_tag (B "dateTimeValue") TYPE_FLOAT ++ f64_text (dt_gps_time dt) ++ close_tag (B "dateTimeValue") ++ LF ++
-     open_tag (B "isAtomicClockReferenced") TYPE_INTEGER ++ (if dt_atomic dt then B "1" else B "0")
-       ++ close_tag (B "isAtomicClockReferenced") ++ LF).
+    (gen_float (B "dateTimeValue") (dt_gps_time dt) ++
+     gen_flag (B "isAtomicClockReferenced") (dt_atomic dt)).
 
 (** * src/transform.rs *)
 Definition transform_xml (tag : list N) (t : transform) : list N :=
